@@ -19,13 +19,17 @@ noncomputable instance : Num ℝ where
 
 variable {𝕜 : Type} [RCLike 𝕜]
 noncomputable instance : XM.Entry ℝ 𝕜 :=
-  { conj := star, ofReal := fun x => (x : 𝕜), divReal := fun x r => x / (r : 𝕜), normSq := fun x => RCLike.normSq x }
+  { conj := star, ofReal := fun x => (x : 𝕜), divReal := fun x r => x / (r : 𝕜), normSq := fun x => RCLike.normSq x,
+    re := fun x => RCLike.re x, im := fun x => RCLike.im x, ofParts := fun a b => (a : 𝕜) + (b : 𝕜) * RCLike.I }
 
 @[simp] theorem Num.pow_real (x y : ℝ) : (Num.pow x y : ℝ) = x ^ y := rfl
 @[simp] theorem Num.ofNat_real (n : ℕ) : (Num.ofNat n : ℝ) = (n : ℝ) := rfl
 @[simp] theorem Entry.ofReal_eq (x : ℝ) : (Entry.ofReal x : 𝕜) = (x : 𝕜) := rfl
 @[simp] theorem Entry.divReal_eq (x : 𝕜) (r : ℝ) : (Entry.divReal x r : 𝕜) = x / (r : 𝕜) := rfl
 @[simp] theorem Entry.normSq_eq (x : 𝕜) : (Entry.normSq x : ℝ) = RCLike.normSq x := rfl
+@[simp] theorem Entry.re_eq (x : 𝕜) : (Entry.re x : ℝ) = RCLike.re x := rfl
+@[simp] theorem Entry.im_eq (x : 𝕜) : (Entry.im x : ℝ) = RCLike.im x := rfl
+@[simp] theorem Entry.ofParts_eq (a b : ℝ) : (Entry.ofParts a b : 𝕜) = (a : 𝕜) + (b : 𝕜) * RCLike.I := rfl
 @[simp] theorem Conj.conj_eq (x : 𝕜) : (Conj.conj x : 𝕜) = star x := rfl
 
 def XM.Mat.toMatrix {α} {n m} (A : Mat n m α) : Matrix (Fin n) (Fin m) α := fun i j => A.get i j
